@@ -509,9 +509,11 @@ func genC12Conn(rng *rand.Rand) string {
 			if slow && mul != "1/1" {
 				bang = true
 			}
-			a := "T0"
+			// (T2: the transport fails with context.Canceled although the request's context is alive — a timeout of its
+			// own, a cancelled upstream: an attempt that failed like any other, the schedule goes on)
+			a := pick(rng, "T0", "T0", "T0", "T2")
 			if bang {
-				a = "!T0"
+				a = "!" + a
 			}
 			hist = append(hist, a)
 		default:
